@@ -3,7 +3,7 @@
 # runs every stored seed against its property's quick check; one line per seed: rc, time, what broke and how it was shown
 cd /verif
 for d in seeded/*/; do
-  [ -n "${SEED_FILTER:-}" ] && ! echo "$d" | grep -qE "$SEED_FILTER" && continue
+  [ -n "${SEED_FILTER:-}" ] && ! echo "$d" | grep -qE -- "$SEED_FILTER" && continue
   name=$(basename $d)
   pid=$(python3 -c "import json;print(json.load(open('$d/meta.json'))['property'])")
   git -C /repo status --porcelain | grep -q . && { echo "/repo not clean"; exit 9; }
